@@ -1,10 +1,14 @@
 import HotstuffModel.Proofs.Reachable
 import HotstuffModel.Proofs.NodeInv6
+import HotstuffModel.Proofs.PrefixLogs
 /-!
 # C07 — A lagging node fetches missing blocks and converges (PARTIAL: protocol lemmas)
 
 "Recovers once reconnected" is a liveness statement; proved here are the request / reply / park /
-resume steps it is made of, for every state and input.  The convergence itself is explored on the
+resume steps it is made of, for every state and input, and the SAFETY half of convergence for the
+global model: whatever a lagging node has delivered at any moment is a prefix of what the others have
+delivered (`never_diverges`) — it can only be behind, never on a different sequence.  That it
+does catch up is explored on the
 real code by the `netsim` engine (a node isolated for a random interval while the others commit,
 with and without view changes in the gap, optionally a slow first sync target; afterwards its
 commit log must reach the others' and be prefix-equal).
@@ -104,5 +108,28 @@ example :
     s1.hist.contains (.syncRequest (some 3) b1.digest) = true ∧ s1.syncPending.length = 1 ∧
     s2.store.length = 2 ∧ s2.syncPending.length = 0 := by
   decide
+
+/-- (safety half of "ends up delivering the same committed sequence as the others")  In every
+reachable state of the global model — any isolation, any delays, Byzantine stake ≤ f — the delivery
+logs of two honest nodes, compared block digest by block digest from the first delivery on, are
+prefixes of one another: a lagging node is only ever BEHIND the others, never on another sequence,
+so once it has delivered as many blocks as they have, it has delivered the same ones. -/
+theorem never_diverges (X : World) (G : GState) (hR : Reach X G) (i j : Nat)
+    (hi : X.honest i) (hj : X.honest j) :
+    (commitsOf (G i).hist).reverse.map Block.digest <+: (commitsOf (G j).hist).reverse.map Block.digest ∨
+    (commitsOf (G j).hist).reverse.map Block.digest <+: (commitsOf (G i).hist).reverse.map Block.digest :=
+  logs_prefix_consistent X G hR i j hi hj
+
+theorem same_length_same_log (X : World) (G : GState) (hR : Reach X G) (i j : Nat)
+    (hi : X.honest i) (hj : X.honest j)
+    (hlen : (commitsOf (G i).hist).length = (commitsOf (G j).hist).length) :
+    (commitsOf (G i).hist).map Block.digest = (commitsOf (G j).hist).map Block.digest := by
+  have h := never_diverges X G hR i j hi hj
+  have e : (commitsOf (G i).hist).reverse.map Block.digest = (commitsOf (G j).hist).reverse.map Block.digest := by
+    rcases h with h | h
+    · exact h.eq_of_length (by simp [hlen])
+    · exact (h.eq_of_length (by simp [hlen])).symm
+  have := congrArg List.reverse e
+  simpa [List.map_reverse] using this
 
 end HS.C07
